@@ -38,6 +38,8 @@ namespace bloch::compiler {
                 tokens.push_back(scanToken());
             }
         }
+        m_tokenLine = m_line;
+        m_tokenColumn = m_column;
         tokens.push_back(makeToken(TokenType::Eof, ""));
         return tokens;
     }
@@ -99,11 +101,14 @@ namespace bloch::compiler {
     }
 
     Token Lexer::makeToken(TokenType type, const std::string& value) {
-        // Column is adjusted so error spans point to token start.
-        return Token{type, value, m_line, m_column - static_cast<int>(value.length())};
+        // Tokens report where their first character is (recorded by scanToken), which stays
+        // correct for literals that span lines.
+        return Token{type, value, m_tokenLine, m_tokenColumn};
     }
 
     Token Lexer::scanToken() {
+        m_tokenLine = m_line;
+        m_tokenColumn = m_column;
         char c = advance();
 
         // Fast paths for common leading characters
@@ -308,8 +313,10 @@ namespace bloch::compiler {
         // Strings are double-quoted and may span lines; we do not process escapes yet.
         size_t start = m_position;
         while (m_position < m_source.size() && peek() != '"') {
-            if (peek() == '\n')
+            if (peek() == '\n') {
                 m_line++;
+                m_column = 0;  // advance() below moves to column 1 of the new line
+            }
             (void)advance();
         }
 
@@ -327,8 +334,13 @@ namespace bloch::compiler {
     Token Lexer::scanChar() {
         // Char literals are simple: '\'' X '\'' with no escaping support for now.
         size_t start = m_position;
-        if (m_position < m_source.size())
+        if (m_position < m_source.size()) {
+            if (peek() == '\n') {
+                m_line++;
+                m_column = 0;
+            }
             (void)advance();
+        }
 
         if (peek() == '\'') {
             (void)advance();
